@@ -230,6 +230,7 @@ func VH_C08_register() {
 		names[i] = string([]byte{b})
 	}
 	tree := NewTree()
+	var accepted []*Route
 	st := &vRegState{registered: map[string]bool{}, allAt: map[string]string{}}
 	for step, t := range texts {
 		vCheckParser(t)
@@ -255,7 +256,56 @@ func VH_C08_register() {
 			return // the tree may be partially modified: the history ends here
 		}
 		st.record(ast)
+		accepted = append(accepted, ast)
+		// every route accepted so far is still reachable by its own instances (subject only
+		// to priority: some registered route must take the instance, never not-found)
+		for _, r := range accepted {
+			for _, inst := range vInstances(r) {
+				_, _, found := tree.Match(inst, nil)
+				vx.Assert(found, "C08: an accepted route stays reachable by its own instances")
+			}
+		}
 	}
+}
+
+var vRegexInstance = map[string]string{"x+": "xx", "[0-9]": "7", "(y)": "y", "x|y": "y", "r": "r", "s": "s"}
+
+// vInstances builds one request path admitted by the route's long form and,
+// for an optional route, one admitted by its short form.
+func vInstances(r *Route) []string {
+	var long, short string
+	n := len(r.Segments)
+	for i, sg := range r.Segments {
+		seg := ""
+		for _, e := range sg.Elements {
+			switch {
+			case e.Ident != nil:
+				seg += *e.Ident
+			case e.BindIdent != nil:
+				seg += "p"
+			case e.BindParameters != nil:
+				for _, p := range e.BindParameters.Parameters {
+					if p.Value.Regex != nil {
+						seg += vRegexInstance[*p.Value.Regex]
+					} else if p.Value.Literal != nil && *p.Value.Literal == "**" {
+						seg += "m"
+						break
+					}
+				}
+			}
+		}
+		long += "/" + seg
+		if i < n-1 {
+			short += "/" + seg
+		}
+	}
+	if n > 0 && r.Segments[n-1].Optional {
+		if short == "" {
+			short = "/"
+		}
+		return []string{long, short}
+	}
+	return []string{long}
 }
 
 func vRegPanics(f func()) (p bool) {
